@@ -227,8 +227,8 @@ def chkStep (cfg : Cfg) (c : Chk) (opLine : String) (rec : String × List String
           let c16 := if textsSame && !fresh then c.c16ok[cur']! else chkC16 cfg rcd
           let res : List (String × Bool) :=
             [("C01", chkC01 mon' rcd && chkNormalScalars rcd), ("C02", chkC02 cfg mon rcd), ("C04", chkC04 mon rcd && chkC04redeliver mon rcd),
-             ("C06", chkC06 cfg mon rcd), ("C07", chkC07 mon rcd), ("C08", chkC08 mon rcd && chkC08cb mon rcd && chkC08first cfg mon rcd), ("CELLS", chkCells cfg mon rcd),
-             ("C09", chkC09 mon' rcd), ("C10", chkC10 mon' rcd && chkNormalAf rcd), ("C11", chkC11 (tabs cfg) mon' rcd && chkNormalEcc rcd),
+             ("C06", chkC06 cfg mon rcd), ("C07", chkC07 mon rcd && chkC07conv cfg mon rcd), ("C08", chkC08 mon rcd && chkC08cb mon rcd && chkC08first cfg mon rcd), ("CELLS", chkCells cfg mon rcd),
+             ("C09", chkC09 mon' rcd), ("C10", chkC10 mon' rcd && chkNormalAf rcd && chkC10cb mon rcd), ("C11", chkC11 (tabs cfg) mon' rcd && chkNormalEcc rcd),
              ("C12", chkC12 mon rcd), ("C13", chkC13 rcd), ("C14", chkC14 rcd), ("C15", chkC15 mon rcd),
              ("C16", c16), ("C17", chkC17 mon' rcd)]
           ((res.filter (fun p => !p.2)).map (fun p => s!"MON {p.1} {k} {cur'}"), mon', c16, op.group?.isSome)
